@@ -13,6 +13,7 @@ import (
 	"fmt"
 	"os"
 	"strings"
+	"sync"
 	"time"
 
 	"github.com/synnaxlabs/cesium"
@@ -36,7 +37,53 @@ type layout struct {
 type stored struct {
 	layout
 	world *cz.World
+	mu    sync.Mutex
 	dbs   map[cesium.ChannelKey]*unary.DB
+}
+
+// openDBs opens a fresh set of unary databases over the stored (read-only) files. A step that
+// panics inside the iterator (a listed finding for mixed auto-span usage) never returns the file
+// reader it had acquired; the databases are shared by every instance of a layout, so a few
+// hundred such panics would use up the descriptor pool and later reads would wait for ever. After
+// a recovered panic the instances to come use a fresh set; the old one stays open for the
+// iterators that still refer to it.
+func (st *stored) openDBs() error {
+	defs := map[cesium.ChannelKey]cesium.Channel{}
+	for _, d := range cz.ChannelDefs() {
+		defs[d.Key] = d
+	}
+	dbs := map[cesium.ChannelKey]*unary.DB{}
+	for _, k := range st.cfg.Channels {
+		sub, err := st.world.FS.Sub(fmt.Sprint(k))
+		if err != nil {
+			return err
+		}
+		d := defs[k]
+		ch := channel.Channel{Key: k, Name: d.Name, DataType: d.DataType, IsIndex: d.IsIndex, Index: d.Index}
+		if d.IsIndex {
+			ch.Index = k
+		}
+		db, err := unary.Open(cz.Ctx, unary.Config{FS: sub, MetaCodec: json.Codec, Channel: ch, FileSize: st.cfg.FileCap})
+		if err != nil {
+			return fmt.Errorf("unary.Open %d: %w", k, err)
+		}
+		dbs[k] = db
+	}
+	for _, k := range st.cfg.Channels {
+		if k != cz.T {
+			dbs[k].SetIndex(dbs[cz.T].Index())
+		}
+	}
+	st.mu.Lock()
+	st.dbs = dbs
+	st.mu.Unlock()
+	return nil
+}
+
+func (st *stored) db(k cesium.ChannelKey) *unary.DB {
+	st.mu.Lock()
+	defer st.mu.Unlock()
+	return st.dbs[k]
 }
 
 func build(l layout) (*stored, error) {
@@ -59,31 +106,9 @@ func build(l layout) (*stored, error) {
 		return nil, err
 	}
 	w.DB = nil
-	st := &stored{layout: l, world: w, dbs: map[cesium.ChannelKey]*unary.DB{}}
-	defs := map[cesium.ChannelKey]cesium.Channel{}
-	for _, d := range cz.ChannelDefs() {
-		defs[d.Key] = d
-	}
-	for _, k := range l.cfg.Channels {
-		sub, err := w.FS.Sub(fmt.Sprint(k))
-		if err != nil {
-			return nil, err
-		}
-		d := defs[k]
-		ch := channel.Channel{Key: k, Name: d.Name, DataType: d.DataType, IsIndex: d.IsIndex, Index: d.Index}
-		if d.IsIndex {
-			ch.Index = k
-		}
-		db, err := unary.Open(cz.Ctx, unary.Config{FS: sub, MetaCodec: json.Codec, Channel: ch, FileSize: l.cfg.FileCap})
-		if err != nil {
-			return nil, fmt.Errorf("unary.Open %d: %w", k, err)
-		}
-		st.dbs[k] = db
-	}
-	for _, k := range l.cfg.Channels {
-		if k != cz.T {
-			st.dbs[k].SetIndex(st.dbs[cz.T].Index())
-		}
+	st := &stored{layout: l, world: w}
+	if err := st.openDBs(); err != nil {
+		return nil, err
 	}
 	return st, nil
 }
@@ -112,7 +137,7 @@ type itSys struct {
 }
 
 func (sc scenario) open() (*itSys, error) {
-	it, err := sc.st.dbs[sc.key].OpenIterator(unary.IteratorConfig{Bounds: sc.bounds, AutoChunkSize: sc.chunk})
+	it, err := sc.st.db(sc.key).OpenIterator(unary.IteratorConfig{Bounds: sc.bounds, AutoChunkSize: sc.chunk})
 	if err != nil {
 		return nil, err
 	}
@@ -211,6 +236,7 @@ func (s *itSys) Apply(op string) (robs string, rerr error) {
 		if !pure {
 			defer func() {
 				if p := recover(); p != nil {
+					_ = s.sc.st.openDBs()
 					rerr = vk.Violationf("auto-step-mixed-usage", "%s panicked: %v (after %s and steps %v)", op, p, s.lastSeek, s.steps)
 				}
 			}()
@@ -378,11 +404,14 @@ func traversals(r *vk.Run, sc scenario) int {
 				if !eq(all, want) {
 					fp := "traversal:" + dir + ":" + m.name
 					if m.span == unary.AutoSpan {
-						fp += ":" + travRelation(all, want)
+						fp += ":" + travRelation(all, want, fwd, s.it.Error())
 					}
 					v := vk.Violationf(fp, "%s traversal with %s of channel %d within %s visited %v, stored samples in bounds are %v (err=%v, %d steps)", dir, m.name, sc.key, s.vw(s.bounds), all, want, s.it.Error(), steps)
 					v.Scenario = sc.name
 					v.Trace = []string{"traversal " + dir + " " + m.name}
+					if os.Getenv("C10_DEBUG") != "" {
+						fmt.Fprintf(os.Stderr, "TRAV %s | %s | %s | got %v want %v err=%v\n", fp, sc.name, dir, all, want, s.it.Error())
+					}
 					r.Report(v)
 				}
 				s.Close()
@@ -392,13 +421,25 @@ func traversals(r *vk.Run, sc scenario) int {
 	return n
 }
 
-func travRelation(all, want []string) string {
+func travRelation(all, want []string, fwd bool, err error) string {
 	seen := map[string]int{}
 	for _, x := range all {
 		seen[x]++
 	}
-	dup, missing := 0, 0
+	// Backward walks whose step lands exactly on the first sample of a domain: the index
+	// takes that sample for one of the preceding domain. With a preceding domain the read
+	// runs off its end (EOF); without one the step is clamped and the second sample is
+	// returned again in place of the first.
+	if !fwd && len(all) == 0 && err != nil && strings.HasSuffix(err.Error(), ": EOF") {
+		return "eof-stepping-onto-first-sample-of-a-domain"
+	}
+	if !fwd && err == nil && len(want) >= 2 && len(all) == len(want) && seen[want[0]] == 0 && seen[want[1]] == 2 {
+		return "first-sample-replaced-by-repeat-of-second"
+	}
+	dup, missing, extra := 0, 0, 0
+	stored := map[string]bool{}
 	for _, x := range want {
+		stored[x] = true
 		if seen[x] > 1 {
 			dup++
 		}
@@ -406,15 +447,37 @@ func travRelation(all, want []string) string {
 			missing++
 		}
 	}
-	switch {
-	case dup > 0 && missing == 0 && len(seen) == len(want):
-		return "sample-repeated-at-chunk-boundary"
-	case missing > 0 && dup == 0:
-		return "samples-missing"
-	case missing == 0 && dup == 0 && len(all) == len(want)+1:
-		return "sample-outside-bounds-returned"
+	for x := range seen {
+		if !stored[x] {
+			extra++
+		}
 	}
-	return "other"
+	// What is left is described by the set of anomalies the walk shows; a single anomaly keeps
+	// its plain name, several are joined.
+	var kinds []string
+	if dup > 0 {
+		kinds = append(kinds, "sample-repeated-at-chunk-boundary")
+	}
+	if missing > 0 {
+		kinds = append(kinds, "samples-missing")
+	}
+	if extra > 0 {
+		kinds = append(kinds, "sample-outside-bounds-returned")
+	}
+	if err != nil {
+		switch {
+		case strings.HasSuffix(err.Error(), ": EOF"):
+			kinds = append(kinds, "error-eof")
+		case strings.Contains(err.Error(), "discontinuous"):
+			kinds = append(kinds, "error-discontinuous")
+		default:
+			kinds = append(kinds, "error-other")
+		}
+	}
+	if len(kinds) == 0 {
+		return "order-differs"
+	}
+	return strings.Join(kinds, "+")
 }
 
 func layouts(quick bool) []layout {
